@@ -293,6 +293,9 @@ class _Unroller:
 
     def _children(self, modname, imports, st: ast.AST, shadowed: set[str]) -> None:
         if isinstance(st, (ast.FunctionDef, ast.AsyncFunctionDef)):
+            # nothing to do in a function without a `for` statement or a `next(..)` look-up (most functions): skip the walks
+            if not any(isinstance(x, (ast.For,)) or (isinstance(x, ast.Call) and isinstance(x.func, ast.Name) and x.func.id == "next") for x in ast.walk(st)):
+                return
             sh = set(shadowed)
             for x in ast.walk(st):
                 if isinstance(x, ast.Name) and isinstance(x.ctx, (ast.Store, ast.Del)):
